@@ -392,16 +392,22 @@ class FunctionReference:
             if memento_fn is not None and memento_fn.fn is not None
             else self._module + ":" + self._function_name
         )
-        if version is not None:
-            qualified_name += "#" + version
+        # (the cluster prefix is decided before the version is appended: a version may itself
+        # contain "::")
         if cluster_name is not None and "::" not in qualified_name:
             qualified_name = cluster_name + "::" + qualified_name
+        if version is not None:
+            qualified_name += "#" + version
         self._qualified_name = qualified_name
 
+        cluster_prefix = (
+            self._cluster_name + "::" if self._cluster_name is not None else None
+        )
         self._qualified_name_without_cluster = (
-            self.qualified_name
-            if "::" not in self.qualified_name
-            else self.qualified_name[self.qualified_name.find("::") + 2 :]
+            self.qualified_name[len(cluster_prefix) :]
+            if cluster_prefix is not None
+            and self.qualified_name.startswith(cluster_prefix)
+            else self.qualified_name
         )
 
         self.qualified_name_without_version = self.module + ":" + self.function_name
